@@ -657,14 +657,313 @@ fn real_replay(v: serde_json::Value) -> Result<(), Fail> {
     real_check(&c, &mut Obs::default())
 }
 
+
+// ---------------------------------------------------------------- lane: paged streams (a search that spans several requests)
+
+#[derive(Clone, Debug, Serialize, Deserialize)]
+pub struct PagedScn {
+    /// entries per page (the last page ends with an empty cookie)
+    pub pages: Vec<u8>,
+    pub entries_only_first: bool,
+    /// the consumer stops after this many items until the fault has happened
+    pub lag: Option<u8>,
+    /// another operation pending during the whole search (never answered before the fault)
+    pub bystander: bool,
+    pub sched: u64,
+}
+
+#[derive(Clone, Copy, Debug, PartialEq, Serialize, Deserialize)]
+pub enum PKind {
+    Eof,
+    Reset,
+    BadFrame,
+}
+
+#[derive(Clone, Debug, Serialize, Deserialize)]
+pub struct PagedFault {
+    /// number of response PDUs (entries and page results, in order) delivered in full before the fault
+    pub cut: usize,
+    pub kind: PKind,
+    /// the fault follows the last delivered PDU at once (same read burst) instead of after the client had the
+    /// chance to react (e.g. to ask for the next page)
+    pub immediate: bool,
+}
+
+fn paged_strat(_: &Ctx) -> BoxedStrategy<PagedScn> {
+    (vec(0u8..4, 1..=4), any::<bool>(), proptest::option::weighted(0.4, 0u8..4), any::<bool>(), any::<u64>())
+        .prop_map(|(pages, entries_only_first, lag, bystander, sched)| PagedScn { pages, entries_only_first, lag, bystander, sched })
+        .boxed()
+}
+
+#[derive(Debug, Default)]
+struct PagedOut {
+    tokens: Vec<String>,
+    end: String,
+    finish_rc: Option<u32>,
+    finish_text: String,
+    bystander_end: Option<String>,
+    post: Option<(String, u64)>,
+    drive: Option<DriveEnd>,
+    drive_hang: bool,
+    requests: usize,
+    /// response PDUs pushed in full before the fault
+    delivered: usize,
+    problems: Vec<String>,
+}
+
+fn ptok(page: usize, e: usize) -> String {
+    format!("p{}e{}", page, e)
+}
+
+fn run_paged(scn: &PagedScn, fault: Option<&PagedFault>) -> SimResult<PagedOut> {
+    use crate::model::{CritForm, RCtl};
+    use crate::props::c16::{paged_value, PAGED_OID};
+    use ldap3::adapters::{Adapter, PagedResults};
+    let scn = scn.clone();
+    let fault = fault.cloned();
+    sim::run_sim(scn.sched, async move {
+        let conn = sim::connect();
+        let wire = conn.wire.clone();
+        let mut out = PagedOut::default();
+        // (a lagging consumer only makes sense when a fault will wake it up)
+        let (resume_tx, resume_rx) = tokio::sync::watch::channel(fault.is_none());
+        let mut ldap = conn.ldap.clone();
+        let lag = scn.lag;
+        let eo_first = scn.entries_only_first;
+        let mut resume = resume_rx.clone();
+        let consumer = tokio::spawn(async move {
+            let mk = simops::marker(0);
+            let mut tokens = Vec::new();
+            let mut end = String::new();
+            let mut fin = (None, String::new());
+            let body = async {
+                let ad: Vec<Box<dyn Adapter<_, _>>> = if eo_first { vec![Box::new(EntriesOnly::new()), Box::new(PagedResults::new(3))] } else { vec![Box::new(PagedResults::new(3))] };
+                match ldap.streaming_search_with(ad, &mk, Scope::Subtree, "(a=b)", vec!["a"]).await {
+                    Ok(mut s) => {
+                        loop {
+                            if lag.map(|p| p as usize == tokens.len()).unwrap_or(false) {
+                                while !*resume.borrow() {
+                                    if resume.changed().await.is_err() {
+                                        break;
+                                    }
+                                }
+                            }
+                            match s.next().await {
+                                Ok(Some(re)) => tokens.push(simops::item_token(&re).1),
+                                Ok(None) => {
+                                    end = "ok".into();
+                                    break;
+                                }
+                                Err(e) => {
+                                    end = err_kind(&e);
+                                    break;
+                                }
+                            }
+                        }
+                        let f = s.finish().await;
+                        fin = (Some(f.rc), f.text);
+                    }
+                    Err(e) => end = format!("start:{}", err_kind(&e)),
+                }
+            };
+            if tokio::time::timeout(Duration::from_secs(3600), body).await.is_err() {
+                end = "hang".into();
+            }
+            (tokens, end, fin)
+        });
+        let bystander = if scn.bystander {
+            let mut l2 = conn.ldap.clone();
+            Some(tokio::spawn(async move {
+                match tokio::time::timeout(Duration::from_secs(3600), l2.compare(&simops::marker(1), "a", "b")).await {
+                    Err(_) => "hang".to_string(),
+                    Ok(Ok(_)) => "ok".to_string(),
+                    Ok(Err(e)) => err_kind(&e),
+                }
+            }))
+        } else {
+            None
+        };
+        // ---- server: one page per request, the fault after `cut` PDUs
+        let cut = fault.as_ref().map(|f| f.cut).unwrap_or(usize::MAX);
+        let mut sent = 0usize;
+        let mut page = 0usize;
+        let mut bystander_id: Option<i64> = None;
+        let mut faulted = false;
+        'srv: while page < scn.pages.len() {
+            let m = loop {
+                // no request within 10 virtual seconds: the consumer lags; the connection is lost meanwhile
+                match tokio::time::timeout(Duration::from_secs(10), wire.recv()).await {
+                    Ok(Recv::Msg(Ok(m), _, _)) => match simops::marker_index(&m) {
+                        Some(0) => break m,
+                        Some(1) => bystander_id = Some(m.id),
+                        _ => {}
+                    },
+                    Ok(Recv::Msg(Err(e), _, _)) | Ok(Recv::Garbage(e)) => out.problems.push(e),
+                    Ok(Recv::Closed) | Err(_) => break 'srv,
+                }
+            };
+            out.requests += 1;
+            let n = scn.pages[page] as usize;
+            let last_page = page + 1 == scn.pages.len();
+            let mut burst = Vec::new();
+            for e in 0..=n {
+                if sent >= cut {
+                    break;
+                }
+                if e < n {
+                    burst.extend_from_slice(&RespMsg::new(m.id, Resp::Entry(Entry::simple(&ptok(page, e)))).encode());
+                } else {
+                    let cookie: Vec<u8> = if last_page { vec![] } else { format!("ck{}", page).into_bytes() };
+                    let ctl = RCtl { oid: PAGED_OID.into(), crit: CritForm::Absent, val: Some(paged_value(0, &cookie)) };
+                    burst.extend_from_slice(&RespMsg { id: m.id, resp: Resp::result(5, Res::ok(&format!("fin{}", page))), ctrls: Some(vec![ctl]) }.encode());
+                }
+                sent += 1;
+            }
+            wire.push(&burst);
+            if sent >= cut {
+                let f = fault.as_ref().unwrap();
+                if !f.immediate {
+                    quiesce().await;
+                }
+                match f.kind {
+                    PKind::Eof => wire.end_read(ReadEnd::Eof),
+                    PKind::Reset => wire.end_read(ReadEnd::Reset),
+                    PKind::BadFrame => wire.push(GARBAGE[f.cut % GARBAGE.len()]),
+                }
+                faulted = true;
+                break;
+            }
+            page += 1;
+        }
+        if let (Some(f), false) = (fault.as_ref(), faulted) {
+            // the cut lies behind the last PDU: the fault happens after the search has been answered completely
+            quiesce().await;
+            match f.kind {
+                PKind::Eof => wire.end_read(ReadEnd::Eof),
+                PKind::Reset => wire.end_read(ReadEnd::Reset),
+                PKind::BadFrame => wire.push(GARBAGE[0]),
+            }
+        }
+        if fault.is_none() {
+            // fault-free run: the bystander is answered at the end
+            quiesce().await;
+            if let Some(id) = bystander_id {
+                wire.push(&RespMsg::new(id, Resp::result(15, Res::code(6, "cmp"))).encode());
+            }
+        }
+        out.delivered = sent;
+        let mut post_handle = conn.ldap.clone();
+        let sim::Conn { ldap, driver, .. } = conn;
+        drop(ldap);
+        if fault.is_some() {
+            quiesce().await;
+            let t = Instant::now();
+            let r = tokio::time::timeout(Duration::from_secs(3600), post_handle.delete("cn=after")).await;
+            let el = t.elapsed().as_millis() as u64;
+            out.post = Some(match r {
+                Err(_) => ("hang".into(), el),
+                Ok(Ok(_)) => ("ok".into(), el),
+                Ok(Err(e)) => (err_kind(&e), el),
+            });
+        }
+        quiesce().await;
+        let _ = resume_tx.send(true);
+        match consumer.await {
+            Ok((tokens, end, fin)) => {
+                out.tokens = tokens;
+                out.end = end;
+                out.finish_rc = fin.0;
+                out.finish_text = fin.1;
+            }
+            Err(_) => out.end = format!("panic:{}", crate::runner::take_panics().into_iter().last().unwrap_or_default()),
+        }
+        if let Some(b) = bystander {
+            out.bystander_end = Some(b.await.unwrap_or_else(|_| "panic".into()));
+        }
+        drop(post_handle);
+        match tokio::time::timeout(Duration::from_secs(3600), sim::join_driver(driver)).await {
+            Ok(e) => out.drive = Some(e),
+            Err(_) => out.drive_hang = true,
+        }
+        out
+    })
+}
+
+pub fn check_paged(scn: &PagedScn, obs: &mut Obs) -> Result<(), Fail> {
+    let total: usize = scn.pages.iter().map(|n| *n as usize + 1).sum();
+    // expected token sequence of the whole search
+    let mut all: Vec<(String, bool)> = Vec::new(); // (token, is entry)
+    for (p, n) in scn.pages.iter().enumerate() {
+        for e in 0..*n as usize {
+            all.push((ptok(p, e), true));
+        }
+        all.push((format!("fin{}", p), false));
+    }
+    let base = match run_paged(scn, None) {
+        SimResult::Done(o) => o,
+        SimResult::Hang => fail!("c04:baseline-hang", "fault-free paged scenario hangs: {:?}", scn),
+    };
+    let want_all: Vec<String> = all.iter().filter(|t| t.1).map(|t| t.0.clone()).collect();
+    ensure!(base.end == "ok" && base.tokens == want_all && base.finish_rc == Some(0) && base.requests == scn.pages.len(), "c04:baseline", "without any fault the paged search returned {:?} / {:?} / rc {:?} over {} requests", base.end, base.tokens, base.finish_rc, base.requests);
+    let mut evals = 1u64;
+    for cut in 0..=total {
+        for kind in [PKind::Eof, PKind::Reset, PKind::BadFrame] {
+            for immediate in [true, false] {
+                let f = PagedFault { cut, kind, immediate };
+                let o = match run_paged(scn, Some(&f)) {
+                    SimResult::Done(o) => o,
+                    SimResult::Hang => fail!("c04:hang", "paged scenario {:?} with fault {:?} never terminates (virtual watchdog)", scn, f),
+                };
+                evals += 1;
+                let ctx = || format!("paged scenario {:?}, fault {:?}", scn, f);
+                if let Some(DriveEnd::Panic(p)) = &o.drive {
+                    fail!(panic_sig(p), "driver panicked ({}): {}", ctx(), p);
+                }
+                if let Some(p) = o.end.strip_prefix("panic:") {
+                    fail!(panic_sig(p), "paged stream panicked ({}): {}", ctx(), p);
+                }
+                ensure!(o.problems.is_empty(), "c04:client-misbehaved", "{:?} ({})", o.problems, ctx());
+                ensure!(!o.drive_hang, "c04:driver-hangs", "drive() never returned after the fault ({})", ctx());
+                ensure!(o.end != "hang", "c04:op-hangs", "the paged stream is still waiting an hour (virtual) after the fault ({})", ctx());
+                // (with a lagging consumer the follow-up request may never come: fewer PDUs than `cut` were delivered)
+                let cut = cut.min(o.delivered);
+                let arrived: Vec<String> = all.iter().take(cut).filter(|t| t.1).map(|t| t.0.clone()).collect();
+                if cut >= total {
+                    ensure!(o.end == "ok" && o.tokens == arrived && o.finish_rc == Some(0), "c04:delivered-response-lost", "the paged search had been answered completely before the fault but returned {:?} / {:?} / rc {:?} ({})", o.end, o.tokens, o.finish_rc, ctx());
+                } else {
+                    ensure!(o.end != "ok", "c04:ok-without-response", "the paged stream ended normally (finish rc {:?}, text {:?}) although only {} of {} response PDUs had arrived: a truncated search is reported as complete ({})", o.finish_rc, o.finish_text, cut, total, ctx());
+                    ensure!(o.tokens == arrived, "c04:wrong-items-before-error", "the paged stream returned items {:?} before failing; fully arrived were {:?} ({})", o.tokens, arrived, ctx());
+                    ensure!(o.finish_rc != Some(0), "c04:ok-without-response", "finish() of the failed paged stream reports success (text {:?}) ({})", o.finish_text, ctx());
+                }
+                if let Some(b) = &o.bystander_end {
+                    ensure!(b != "ok" && b != "hang", "c04:bystander", "an operation pending during the fault ended with {:?} ({})", b, ctx());
+                }
+                if let Some((end, ms)) = &o.post {
+                    ensure!(end != "ok" && end != "hang", "c04:later-op-not-failed", "an operation started after the fault ended with {:?} ({})", end, ctx());
+                    ensure!(*ms == 0, "c04:later-op-not-immediate", "an operation started after the fault took {} virtual ms to fail ({})", ms, ctx());
+                }
+                // page boundary = the cut falls right behind a page result that carries a cookie
+                let at_boundary = cut > 0 && cut < total && !all[cut - 1].1;
+                if at_boundary {
+                    obs.label(if immediate { "fault-right-behind-page-result" } else { "fault-after-follow-up-request" });
+                    obs.nontrivial((format!("{:?}", scn.pages), scn.entries_only_first, scn.lag, cut, format!("{:?}", kind), immediate));
+                }
+            }
+        }
+    }
+    obs.evals(evals);
+    Ok(())
+}
+
 pub fn property() -> Property {
     Property {
         id: "C04",
         level: "fault_enumeration",
-        rule: "generated scenario: 1-5 concurrent operations on their own handles (7 single-result kinds; direct and EntriesOnly streams with 0-6 entries, optionally with a lagging consumer that stops reading after k items until the fault has happened), a generated merge order of the response stream, optional 1-byte reads and small write sizes, scheduler seed. For each scenario the fault-free run fixes the response stream R and request stream W; then EXHAUSTIVELY: clean EOF and ConnectionReset after every byte offset 0..=|R|; an undecodable frame (4 kinds the decoder rejects), a client unbind(), and a write failure that hits exactly an Abandon / an Unbind request (read side open and silent) at every PDU boundary of R; a write failure after every byte offset 0..|W| (partial write then failure); drop of the last handle. Oracle per run: every operation future, every stream call and drive() complete before a virtual-clock watchdog; an operation whose complete response preceded the fault returns it intact; every other pending operation returns Err - never Ok, a stream returns exactly the fully arrived items in order and then Err; an operation started after the fault fails in zero virtual time; unbind: UnbindRequest is the last PDU, the write side is shut down, drive() returns once the server closes; last-handle drop: transport dropped, drive() returns Ok without server help. Lane real-transports (exhaustive, 12 cells): over real TCP, Unix-domain and TLS connections, unbind() and dropping the last handle must make the server see end-of-file, a pending operation must fail and drive() must return. Non-trivial (counted per scenario): >=1 operation pending at the fault and the cut strictly inside a PDU or between two PDUs of one operation. Distinct = hash of (operations, merge order, read mode).",
+        rule: "generated scenario: 1-5 concurrent operations on their own handles (7 single-result kinds; direct and EntriesOnly streams with 0-6 entries, optionally with a lagging consumer that stops reading after k items until the fault has happened), a generated merge order of the response stream, optional 1-byte reads and small write sizes, scheduler seed. For each scenario the fault-free run fixes the response stream R and request stream W; then EXHAUSTIVELY: clean EOF and ConnectionReset after every byte offset 0..=|R|; an undecodable frame (4 kinds the decoder rejects), a client unbind(), and a write failure that hits exactly an Abandon / an Unbind request (read side open and silent) at every PDU boundary of R; a write failure after every byte offset 0..|W| (partial write then failure); drop of the last handle. Oracle per run: every operation future, every stream call and drive() complete before a virtual-clock watchdog; an operation whose complete response preceded the fault returns it intact; every other pending operation returns Err - never Ok, a stream returns exactly the fully arrived items in order and then Err; an operation started after the fault fails in zero virtual time; unbind: UnbindRequest is the last PDU, the write side is shut down, drive() returns once the server closes; last-handle drop: transport dropped, drive() returns Ok without server help. Lane real-transports (exhaustive, 12 cells): over real TCP, Unix-domain and TLS connections, unbind() and dropping the last handle must make the server see end-of-file, a pending operation must fail and drive() must return. Non-trivial (counted per scenario): >=1 operation pending at the fault and the cut strictly inside a PDU or between two PDUs of one operation. Distinct = hash of (operations, merge order, read mode). Lane paged-faults: a PagedResults (or [EntriesOnly, PagedResults]) stream over 1-4 pages of 0-3 entries served by a scripted server that answers each page request, optionally with a lagging consumer and a bystander operation; EOF / reset / undecodable frame after every response PDU, either right behind it (same burst, before the client can ask for the next page) or after the client reacted; oracle: never a hang, exactly the fully delivered entries are returned, the stream ends normally (finish rc 0) only if the last page's result had arrived - a truncated search is never reported as complete -, the bystander and later operations fail.",
         assumptions: &["client-side events (unbind, drop) are injected only when the driver has quiesced, so that legitimate select! races are not reported", "the scripted transport fails writes after shutdown like a socket", "evaluations counts every injected fault run; distinct_nontrivial counts scenarios containing at least one non-trivial fault"],
         lanes: vec![
             Box::new(PLane { name: "faults", cases: |t| t.pick(60, 600), strat, check }),
+            Box::new(PLane { name: "paged-faults", cases: |t| t.pick(25, 300), strat: paged_strat, check: check_paged }),
             Box::new(crate::runner::FnLane { name: "real-transports", run: real_run, replay: real_replay }),
         ],
         workers: (8, 16),
